@@ -35,16 +35,59 @@ package http2
 //@ pure func accepted(sc *serverConn, f Frame) bool = (sc.sawFirstSettings || isptr(SettingsFrame, f)) && !discarded(sc, f)
 //@ pure func frameOK(f Frame) bool = (isptr(SettingsFrame, f) ==> unboxptr(SettingsFrame, f) != nil) && (isptr(MetaHeadersFrame, f) ==> unboxptr(MetaHeadersFrame, f) != nil && unboxptr(MetaHeadersFrame, f).HeadersFrame != nil) && (isptr(WindowUpdateFrame, f) ==> unboxptr(WindowUpdateFrame, f) != nil) && (isptr(PingFrame, f) ==> unboxptr(PingFrame, f) != nil) && (isptr(DataFrame, f) ==> unboxptr(DataFrame, f) != nil) && (isptr(RSTStreamFrame, f) ==> unboxptr(RSTStreamFrame, f) != nil) && (isptr(PriorityFrame, f) ==> unboxptr(PriorityFrame, f) != nil) && (isptr(GoAwayFrame, f) ==> unboxptr(GoAwayFrame, f) != nil) && (isptr(PushPromiseFrame, f) ==> unboxptr(PushPromiseFrame, f) != nil)
 
+//@ -- ghost trace: which per-type handler was entered (codes are the frame type numbers); the handlers themselves
+//@ -- are not verified here: all that is assumed is that entering one is the event, and (from the module-wide
+//@ -- `writers` scan) that they cannot touch the captured fingerprint data.
+//@ ghost var procLog seq[int]
+//@ func (*serverConn).processData :: sc, f -> err
+//@   trusted
+//@   assigns unrestricted, procLog
+//@   ensures procLog == old(procLog) ++ seq[int]{0}
+//@ func (*serverConn).processHeaders :: sc, f -> err
+//@   trusted
+//@   assigns unrestricted, procLog
+//@   ensures procLog == old(procLog) ++ seq[int]{1}
+//@ func (*serverConn).processPriority :: sc, f -> err
+//@   trusted
+//@   assigns unrestricted, procLog
+//@   ensures procLog == old(procLog) ++ seq[int]{2}
+//@ func (*serverConn).processResetStream :: sc, f -> err
+//@   trusted
+//@   assigns unrestricted, procLog
+//@   ensures procLog == old(procLog) ++ seq[int]{3}
+//@ func (*serverConn).processSettings :: sc, f -> err
+//@   trusted
+//@   assigns unrestricted, procLog
+//@   ensures procLog == old(procLog) ++ seq[int]{4}
+//@ func (*serverConn).processPing :: sc, f -> err
+//@   trusted
+//@   assigns unrestricted, procLog
+//@   ensures procLog == old(procLog) ++ seq[int]{6}
+//@ func (*serverConn).processGoAway :: sc, f -> err
+//@   trusted
+//@   assigns unrestricted, procLog
+//@   ensures procLog == old(procLog) ++ seq[int]{7}
+//@ func (*serverConn).processWindowUpdate :: sc, f -> err
+//@   trusted
+//@   assigns unrestricted, procLog
+//@   ensures procLog == old(procLog) ++ seq[int]{8}
+//@ func (*serverConn).sendWindowUpdate :: sc, st, n
+//@   trusted
+//@   assigns unrestricted
+
 //@ -- what is captured, as values
 //@ pure func capSettings(p seq[byte], n int) seq[metadata.Setting] = ite(n <= 0, seq[metadata.Setting]{}, capSettings(p, n-1) ++ seq[metadata.Setting]{mk(metadata.Setting, settingID(p, n-1), settingVal(p, n-1))})
 //@ pure func capHeaders(fs seq[hpack.HeaderField], n int) seq[metadata.HeaderField] = ite(n <= 0, seq[metadata.HeaderField]{}, capHeaders(fs, n-1) ++ seq[metadata.HeaderField]{mk(metadata.HeaderField, fs[n-1].Name, fs[n-1].Value, fs[n-1].Sensitive)})
 //@ pure func capMD(sc *serverConn) *metadata.Metadata = ctxMeta(sc.baseCtx)
 
 //@ func (*serverConn).processFrame :: sc, f -> err
-//@   props C03,C13,C10
+//@   props C03,C13,C10,C08
 //@   requires sc != nil && f != nil && frameOK(f) && sc.inflow.avail >= 0
 //@   requires hasMeta(sc.baseCtx) ==> ctxMeta(sc.baseCtx) != nil
 //@   structural [C03:captured-before-processing] stores_before_calls HTTP2FingerprintingFrames process
+//@   ensures [C13,C08:accepted-frames-reach-their-handler] old(accepted(sc, f)) ==> procLog == old(procLog) ++ ite(isptr(DataFrame, f), seq[int]{0}, ite(isptr(MetaHeadersFrame, f), seq[int]{1}, ite(isptr(PriorityFrame, f), seq[int]{2}, ite(isptr(RSTStreamFrame, f), seq[int]{3}, ite(isptr(SettingsFrame, f), seq[int]{4}, ite(isptr(PingFrame, f), seq[int]{6}, ite(isptr(GoAwayFrame, f), seq[int]{7}, ite(isptr(WindowUpdateFrame, f), seq[int]{8}, seq[int]{}))))))))
+//@   ensures [C13:discarded-or-early-frames-reach-no-handler] !old(accepted(sc, f)) ==> procLog == old(procLog)
+//@   ensures [C13:push-promise-from-client-is-protocol-error] old(accepted(sc, f)) && isptr(PushPromiseFrame, f) ==> isConnErr(err, 1)
 //@   ensures [C13:first-frame-must-be-settings] !old(sc.sawFirstSettings) && !isptr(SettingsFrame, f) ==> isConnErr(err, 1)
 //@   ensures [C03:settings-replaced-by-latest-non-ack] old(accepted(sc, f)) && old(hasMeta(sc.baseCtx)) && isptr(SettingsFrame, f) && !flag(old(hdrOf(f)).Flags, 1) ==> old(capMD(sc)).HTTP2Frames.Settings == capSettings(old(unboxptr(SettingsFrame, f).p), len(old(unboxptr(SettingsFrame, f).p)) / 6)
 //@   ensures [C03:settings-ack-ignored] isptr(SettingsFrame, f) && flag(old(hdrOf(f)).Flags, 1) && old(hasMeta(sc.baseCtx)) ==> old(capMD(sc)).HTTP2Frames.Settings == old(capMD(sc).HTTP2Frames.Settings)
